@@ -120,8 +120,9 @@ def enumerate_cases(tier, seed):
     # every argument-part mutation for a script and for a plain file, through every form (in-process)
     site = [["run.sh", {"kind": "exec"}], ["readme.txt", {"kind": "txt", "content": "hello\n"}]]
     # menus that are FILES ('*.gophermap'), on disk and as archive members, through every form
-    mapsite = [["top.gophermap", {"kind": "mapfile", "content": "iWelcome\n0Read me\treadme.txt\n1Sub\t/sub\n"}],
-               ["readme.txt", {"kind": "txt", "content": "hello\n"}],
+    # (five objects: index 0 is never addressed - a target that is a multiple of 5 means the root)
+    mapsite = [["readme.txt", {"kind": "txt", "content": "hello\n"}],
+               ["top.gophermap", {"kind": "mapfile", "content": "iWelcome\n0Read me\treadme.txt\n1Sub\t/sub\n7Find it here\t/cgi bin/find it.sh\n7Recherche 100%\t/caf\xe9 q.sh\n"}],
                ["arc.zip", {"kind": "zip", "items": [["menu.gophermap", {"kind": "mapfile", "content": "iIn the archive\n0Member\tm.txt\n"}],
                                                        ["m.txt", {"kind": "txt", "content": "member\n"}]]}]]
     nobj = len(sites.objects(mapsite))
